@@ -10,7 +10,7 @@
 (* sweeps Nest(opener, depth), and the configuration product               *)
 (* (entry point x parser options x fetcher kind x import graph).           *)
 (***************************************************************************)
-EXTENDS SoupContract
+EXTENDS SoupContract, IOUtils
 CONSTANTS MaxToks, Depths, PairContexts
 VARIABLE row
 
@@ -20,7 +20,7 @@ Contexts == {"sheet", "after-charset", "import-prelude", "namespace-prelude", "m
              "paren", "bracket", "style-attr", "margin-block"}
 Tokens == {"ident", "IDENT-and", "ident-important", "ident-inherit", "func", "url(", "var(", "calc(", "rgb(", "hsl(", "not(", "nth-child(", "expression(",
            "@charset-sp", "@charset", "@import", "@media", "@page", "@font-face", "@namespace", "@variables", "@top-left", "@x",
-           "hash", "string", "uri", "number", "percentage", "dimension", "urange", "~=", "|=", "cdo", "cdc", "S", "comment",
+           "hash", "string", "uri", "number", "percentage", "dimension", "dimension-esc", "number-huge", "urange", "~=", "|=", "cdo", "cdc", "S", "comment",
            "{", "}", "(", ")", "[", "]", ";", ":", ",", ".", "*", ">", "+", "!", "/", "=", "#", "@", "%", "&", "$", "-", "bs",
            "open-string", "open-comment", "open-url", "nonascii", "astral", "ctl", "nl"}
 \* the context automaton (total): where the parser is after token t in context c; "=" means "stays"
@@ -72,7 +72,7 @@ TokRows == {[kind |-> "tokens", ctx |-> c, toks |-> s, entry |-> "string"] : c \
                    s \in {x \in [1..2 -> Tokens] : MaxToks >= 2 /\ (x[1] \in SmallTokens \/ (MaxToks >= 3 /\ x[2] \in SmallTokens))}}
            \cup {[kind |-> "tokens", ctx |-> "sheet", toks |-> s, entry |-> "string"] : s \in {x \in [1..3 -> SmallTokens] : MaxToks >= 3}}
            \cup {[kind |-> "tokens", ctx |-> "style-attr", toks |-> s, entry |-> "style"] : s \in Seqs(2)}
-Openers == {"{", "(", "[", "func", "func-comma", "calc(", "not(", "@media", "@x-block", "url(", "rgb(", "hsl(", "var(", "var-fallback", "paren-in-selector",
+Openers == {"{", "(", "[", "func", "func-comma", "calc(", "calc-sum", "not(", "@media", "@x-block", "url(", "rgb(", "hsl(", "var(", "var-fallback", "paren-in-selector",
             "attr-in-not", "string-in-func", "comment"}
 NestRows == {[kind |-> "nest", opener |-> o, depth |-> d, ctx |-> c, close |-> cl, entry |-> "string"] :
                 o \in Openers, d \in Depths, c \in {"sheet", "decl-value", "selector", "media-rules"}, cl \in BOOLEAN}
@@ -84,7 +84,19 @@ ConfigRows == {[kind |-> "config", entry |-> e, graph |-> g, fetch |-> f, text |
               \cup {[kind |-> "config", entry |-> "bytes", graph |-> "none", fetch |-> "content", text |-> t] :
                        t \in {"bom-utf-16-le", "bom-utf-16-be", "bom-utf-32-le", "bom-utf-32-be", "bom-utf-16-le-lowzero", "bom-utf-16-be-lowzero",
                               "bom-utf-32-le-lowzero", "bom-utf-8-lowzero"}}
-Rows == TokRows \cup NestRows \cup ConfigRows
+\* @charset naming a codec that exists in Python but is no text encoding (as text: byte strings with such a rule are not
+\* "decodable under the encoding that applies"); a fetcher / an imported byte string that names an unknown or non-text encoding
+BadFetchKinds == {"bad-encoding", "enc-hex", "enc-rot13", "enc-css", "bytes-charset-hex", "bytes-charset-rot13", "bytes-charset-css",
+                  "bytes-charset-unknown", "bytes-undecodable"}
+CodecRows == {[kind |-> "config", entry |-> "string", graph |-> "none", fetch |-> "content", text |-> t] :
+                 t \in {"charset-hex", "charset-css", "charset-rot13", "charset-unknown"}}
+             \cup {[kind |-> "config", entry |-> "string", graph |-> g, fetch |-> f, text |-> "plain"] : g \in {"chain3", "diamond"}, f \in BadFetchKinds}
+\* one declaration per known property name (read from the repository: NAMES_FILE) with a value built to make a backtracking
+\* matcher work hard: validation is part of "parsing returns in bounded time"
+PropNames == IF "NAMES_FILE" \in DOMAIN IOEnv THEN ndJsonDeserialize(IOEnv.NAMES_FILE) ELSE <<>>
+BombRows == {[kind |-> "propvalue", name |-> PropNames[i].name, shape |-> sh, entry |-> "string"] :
+                i \in 1..Len(PropNames), sh \in {"long-ident-then-number", "many-idents", "many-numbers-then-ident", "many-strings-then-number", "nested-functions"}}
+Rows == TokRows \cup NestRows \cup ConfigRows \cup CodecRows \cup BombRows
 Init == row \in Rows
 Next == UNCHANGED row
 Spec == Init /\ [][Next]_row
